@@ -26,6 +26,7 @@ from typing import Any
 
 from happysimulator.core.entity import Entity
 from happysimulator.core.event import Event
+from happysimulator.core.sim_future import SimFuture
 
 logger = logging.getLogger(__name__)
 
@@ -159,25 +160,21 @@ class Barrier(Entity):
             return 0
 
         # Not the last - must wait
-        released = [False]
-
-        def on_release():
-            released[0] = True
-
-        waiter = _BarrierWaiter(callback=on_release, enqueue_time_ns=enqueue_time)
+        # Park on a future resolved when the barrier trips (no events while waiting)
+        released = SimFuture()
+        waiter = _BarrierWaiter(callback=released.resolve, enqueue_time_ns=enqueue_time)
         self._waiters.append(waiter)
         arrival_index = self._parties - len(self._waiters)
 
         # Yield control until released
-        while not released[0]:
+        while not released.is_resolved:
             # Check for broken barrier
             if self._broken:
                 raise RuntimeError(f"Barrier {self.name} is broken")
             # Check for generation change (we were released)
             if self._generation != my_generation:
-                released[0] = True
                 break
-            yield 0.0
+            yield released
 
         # Record wait time
         if self._clock:
